@@ -177,6 +177,12 @@ class Normaliser:
                 return f"{e.func.id}({', '.join(args)})"
             if fn == "Pipeline" and not e.args:
                 return "ID"
+            if fn == "sum" and len(e.args) == 2 and isinstance(e.args[0], (ast.List, ast.Tuple)) and not e.keywords:
+                # sum([a, b, c], start) is start + a + b + c
+                acc: ast.expr = e.args[1]
+                for it in e.args[0].elts:
+                    acc = ast.BinOp(left=acc, op=ast.Add(), right=it)
+                return self.step_form(acc)
             return ast.unparse(e)
         if isinstance(e, ast.BinOp) and isinstance(e.op, ast.Add):
             return self.step_form(e.left) + " >> " + self.step_form(e.right)
@@ -260,6 +266,9 @@ class Normaliser:
         a0 = v_.args[0]
         if isinstance(a0, ast.Name) and a0.id in amap_h and a0.id not in inner:
             a0 = astu.expand_locals(a0, amap_h)
+        elif not isinstance(a0, (ast.Name, ast.Lambda)):
+            # locals used inside the expression (``stages = [...]; … sum(stages, Pipeline())``)
+            a0 = astu.expand_locals(a0, {k: v for k, v in amap_h.items() if k not in keep_ and k not in inner})
         a0 = astu.inline_helpers(a0, self._private_call_resolver)
         if isinstance(a0, ast.Name) and a0.id in inner:
             g = inner[a0.id]
@@ -349,6 +358,52 @@ EXPECTED_PRIVATE = {
 }
 
 
+def _drop_redundant_ensure(form: str) -> str:
+    """``evaluatable_tuple(Evaluatable.ensure(x))`` is ``evaluatable_tuple(x)``: the collection constructors hand every
+    element to Iter, which ensures it (idempotently)."""
+    import re
+    prev = None
+    while prev != form:
+        prev = form
+        form = re.sub(r"(evaluatable_\w+\((?:[^()]*,\s*)?)Evaluatable\.ensure\((\*?\w+)\)", r"\1\2", form)
+    return form
+
+
+def _canon_outcomes(outs: List[str]) -> List[str]:
+    """Outcomes as a function of the conditions that matter: a path that only lets the failure it caught go on is the
+    outcome of not catching it (dropped, like failures outside any handler); two paths with the same result whose
+    conditions differ in the polarity of one test are one path without that test."""
+    items = []
+    for o in outs:
+        cs, _, res = o.partition(" -> ")
+        if res.startswith("raise exc-of"):
+            continue
+        items.append((frozenset(c for c in cs.split(" & ") if c), res))
+    changed = True
+    while changed:
+        changed = False
+        for i in range(len(items)):
+            for j in range(i + 1, len(items)):
+                (ci, ri), (cj, rj) = items[i], items[j]
+                if ri != rj:
+                    continue
+                d = ci ^ cj
+                if len(d) == 2:
+                    a, b = sorted(d)
+                    if a[:-1] == b[:-1] and {a[-1], b[-1]} == {"T", "F"} and a[-2] == "=":
+                        items[i] = (ci & cj, ri)
+                        del items[j]
+                        changed = True
+                        break
+                elif not d:
+                    del items[j]
+                    changed = True
+                    break
+            if changed:
+                break
+    return sorted(" & ".join(sorted(c)) + " -> " + r_ for c, r_ in items)
+
+
 def rule_HO(run: Run) -> RuleResult:
     res = RuleResult("R-HO")
     nec = ("each helper step computes the documented Python operation with the documented operand "
@@ -367,13 +422,15 @@ def rule_HO(run: Run) -> RuleResult:
         if want is None:
             res.notes.append(f"helper {name} has no table row (form: {form}) — not judged")
             continue
+        form, want = _drop_redundant_ensure(form), _drop_redundant_ensure(want)
         res.add(f"labrea.functions.{name}:operand order", form == want, f, node.lineno,
                 f"derived `{form}`" + ("" if form == want else f" — documented behaviour is `{want}`"), nec)
     for name, want in EXPECTED_PRIVATE.items():
         fn = nz.funcs.get(name)
         if fn is None:
             continue
-        form = outcomes(run.repo, nz.mod, fn)
+        form = _canon_outcomes(outcomes(run.repo, nz.mod, fn))
+        want = _canon_outcomes(want)
         res.add(f"labrea.functions.{name}:body", form == want, f, fn.lineno, f"outcomes {form}" + ("" if form == want else f" — expected {want}"), nec)
     res.count("helpers", n_red)
     if n_red < 55:
